@@ -123,6 +123,7 @@ def project(issues):
 def _cli(root, flags):
     import hed.scripts.hed_validator as hv
     old = sys.argv
+    flags = [(root.rstrip("/") + "_report.txt") if f == "@OUT" else f for f in flags]
     sys.argv = ["hed_validator", root] + flags
     buf = io.StringIO()
     try:
@@ -202,7 +203,10 @@ def plan(n):
     return {"w_clean": [False, True] if n % 8 == 0 else ([False] if n % 4 == 0 else []),
             "cli_clean": [["--check-for-warnings"]] if n % 8 == 0 else ([[]] if n % 4 == 0 else []),
             "w_seeded": [False, True] if n % 8 == 3 else [False],
-            "cli_seeded": [["-f", "json"]] if n % 32 == 5 else ([["--check-for-warnings"]] if n % 8 == 3 else ([[]] if n % 2 else []))}
+            # (-o: the report goes to a file under the scratch directory instead of the screen; "@OUT" is replaced by a path)
+            "cli_seeded": [["-f", "json"]] if n % 32 == 5 else ([["--check-for-warnings"]] if n % 8 == 3 else
+                                                                 ([["-o", "@OUT"]] if n % 8 == 1 else ([[]] if n % 2 else []))),
+            }
 
 
 def execute(case):
